@@ -92,6 +92,10 @@ package mysql
 // ---- C20: the host registry as seen by the manager ----------------------------------------------------------
 //@ define regd(c *Cluster, h string) = has(c.haNodes, h) || has(c.cascadeNodes, h)
 
+//@ func (*mysql.Cluster).IsCascadeHost
+//@   ensures C16.cascade_flag_is_registry [C16,C04]: result == has(c.cascadeNodes, hostname)
+//@   ensures pure [C16,C04]: tick == old(tick)
+
 //@ func (*mysql.Cluster).AllNodeHosts
 //@   ensures C20.all_registered [C20]: forall k string :: contains(result, k) <==> regd(c, k)
 //@   loop 1 invariant seen: forall k string :: contains(hosts, k) <==> visited[k]
